@@ -40,7 +40,7 @@ def sweep(c, lane, stride, offset):
 def run(c):
     c.rule = ("inputs: every byte string of length 0..2 and (quick) a seeded 1/16 stride or (thorough) all of the 16,777,216 three-byte groups, "
               "checked against a table-free reference encoder and decoded back; random strings of every length residue up to 64 KiB checked against "
-              "Python's base64; single-character corruptions of valid text must be rejected. A class = (operation, length mod 3, length class, lane) "
+              "Python's base64 (round trip) and up to 1 MiB / 4 MiB (encoder only); single-character corruptions of valid text must be rejected. A class = (operation, length mod 3, length class, lane) "
               "or (corruption position class, replacement class); non-trivial = everything except the empty input.")
     c.assumptions += ["Python's base64 module and the harness's arithmetic reference encoder implement RFC 4648 section 4"]
     lanes = ["rel", "chk"]
@@ -102,6 +102,44 @@ def run(c):
                 c.violation("C18:decode:wrong:len_mod3=%d:lane=%s" % (len(data) % 3, lane), "decode(encode(x)) != x for %d bytes" % len(data), {"input_b64": want})
             if len(c.samples) < 4:
                 c.sample({"kind": "roundtrip", "lane": lane, "input_hex": data[:24].hex(), "len": len(data), "encoded_prefix": enc[:32]})
+    # large inputs, encoder only (the decoder is quadratic): lengths around every power of two and typical block sizes up
+    # to 1 MiB (4 MiB thorough), every length residue, compared with Python's base64 - padding may only appear at the end
+    big_lens = []
+    for k in range(12, 21 if c.quick else 23):
+        for d in (-2, -1, 0, 1, 2, 3):
+            big_lens.append((1 << k) + d)
+    big_lens += [3 * 1024 * 57 + d for d in (0, 1, 2)] + [100000, 100001, 100002, 65536 * 3 + 1, 65536 * 5 + 2] + [rng.range(70000, 900000) for _ in range(6 if c.quick else 60)]
+    bcases, bmeta = [], {}
+    for i, L in enumerate(big_lens):
+        data = rng.bytes(L)
+        cid = "big%d" % i
+        bcases.append(core.Case(cid, "b64.encode", [data]))
+        bmeta[cid] = data
+    c.need("encoder output checked for an input above 64 KiB")
+    for lane in lanes:
+        obs = core.run_cases(bcases, lane=lane, per_case_timeout=120)
+        for cs in bcases:
+            o = obs.get(cs.id)
+            data = bmeta[cs.id]
+            c.ev()
+            c.cls("large-encode", len(data) % 3, len(data).bit_length(), lane)
+            if o is None or o.outcome == "missing":
+                c.inconc("no observation for %s" % cs.id)
+                continue
+            if o.outcome in ("panic", "died", "timeout"):
+                c.crash("Base64::encode", o, cs)
+                continue
+            if o.outcome == "err":
+                c.violation("C18:encode:err:len_mod3=%d" % (len(data) % 3), "encode returned Err(%s) for %d bytes" % (o.err, len(data)), {"input_len": len(data)})
+                continue
+            enc = o.s(0)
+            if len(data) > 65536:
+                c.seen("encoder output checked for an input above 64 KiB")
+            want = base64.b64encode(data).decode()
+            if enc != want:
+                i0 = next((k for k in range(min(len(enc), len(want))) if enc[k] != want[k]), min(len(enc), len(want)))
+                c.violation("C18:encode:wrong:large:%s:lane=%s" % ("padding-inside-text" if "=" in enc.rstrip("=") else "text", lane),
+                            "encode of %d bytes differs from RFC 4648 at text offset %d (got %r, want %r)" % (len(data), i0, enc[i0:i0 + 12], want[i0:i0 + 12]), {"input_len": len(data), "seed": c.seed, "offset": i0})
     for ch in ALPHABET:
         c.need("alphabet character %r seen in encoder output" % ch)
         if ch in seen_chars:
